@@ -47,7 +47,7 @@ def PackedUnionBitfield (packed : Bool) (ms : List SMem) : Bool :=
 def SMem.toMem (m : SMem) : Mem :=
   { size := (m.size : Int)
     align := ((if m.alignas ≠ 0 then m.alignas else m.tyAlign : Nat) : Int)
-    bitWidth := m.bitWidth.map fun w => (w : Int)
+    bitWidth := (match m.bitWidth with | some w => some (w : Int) | none => none)
     named := m.named }
 
 def SPlaced.toPlaced (p : SPlaced) : Placed := { offset := (p.unitOffset : Int), bitOffset := (p.bitInUnit : Int) }
@@ -146,5 +146,334 @@ theorem straddle_iff (cur w u : Nat) (hu : 0 < u) (hw : 0 < w) :
     have h4 := Nat.mod_lt (cur + w - 1) hu
     rw [← heq] at h3
     omega
+
+theorem alignToE_natCast (n a : Nat) (ha : 0 < a) : alignToE (n : Int) (a : Int) = .ok ((roundUp n a : Nat) : Int) := by
+  unfold alignToE
+  have : ¬ a = 0 := by omega
+  simp [this, alignTo_natCast n a ha]
+
+theorem tdiv_natCast8 (n : Nat) : Int.tdiv (n : Int) 8 = ((n / 8 : Nat) : Int) := tdiv_natCast n 8
+
+/-- the member is outside the packed known-finding regions -/
+def MemInScope (packed : Bool) (m : SMem) : Prop :=
+  packed = true → m.alignas = 0 ∧ (m.bitWidth = none ∨ m.bitWidth = some 0)
+
+theorem placeMember_eq (packed : Bool) (cur : Nat) (m : SMem) (hwf : m.WF) (hsc : MemInScope packed m) :
+    placeMember packed cur m.toMem =
+      .ok (((allocate packed cur m).2 : Nat), (placedAt m (allocate packed cur m).1).toPlaced) := by
+  obtain ⟨size, tyAlign, alignas, bw, named⟩ := m
+  obtain ⟨hta, hbf⟩ := hwf
+  unfold MemInScope at hsc
+  simp only at hta hbf hsc
+  cases bw with
+  | none =>
+    cases packed with
+    | false =>
+      have hA : 0 < (if alignas ≠ 0 then alignas else tyAlign) := by split <;> omega
+      simp only [placeMember, SMem.toMem, allocate, placedAt, SMem.reqAlign, Bool.false_eq_true, if_false]
+      generalize (if alignas ≠ 0 then alignas else tyAlign) = A at hA ⊢
+      have e1 : ((A : Int) * 8) = ((8 * A : Nat) : Int) := by omega
+      rw [e1, alignToE_natCast _ _ (by omega)]
+      simp only [SPlaced.toPlaced, Except.ok.injEq, Prod.mk.injEq, Placed.mk.injEq, tdiv_natCast8]
+      refine ⟨by omega, by omega, rfl⟩
+    | true =>
+      have ⟨ha0, _⟩ := hsc rfl
+      subst ha0
+      simp only [placeMember, SMem.toMem, allocate, placedAt, SMem.reqAlign, if_true]
+      simp only [ne_eq, not_true_eq_false, if_false, Nat.mul_one]
+      have e8 : (8 : Int) = ((8 : Nat) : Int) := rfl
+      rw [e8, alignToE_natCast _ _ (by omega)]
+      simp only [SPlaced.toPlaced, Except.ok.injEq, Prod.mk.injEq, Placed.mk.injEq, tdiv_natCast]
+      refine ⟨by omega, by omega, rfl⟩
+  | some w =>
+    obtain ⟨hsz, ha0, hts, hw8, hnm⟩ := hbf
+    subst ha0
+    subst hts
+    have e1 : ((tyAlign : Int) * 8) = ((8 * tyAlign : Nat) : Int) := by omega
+    by_cases hw : w = 0
+    · subst hw
+      simp only [placeMember, SMem.toMem, allocate, placedAt, if_true, Int.natCast_eq_zero]
+      rw [e1, alignToE_natCast _ _ (by omega)]
+      simp [SPlaced.toPlaced]
+    · have hp : packed = false := by
+        cases packed with
+        | false => rfl
+        | true => have := (hsc rfl).2; simp at this; exact absurd this hw
+      subst hp
+      have hwz : ¬ ((w : Int) = 0) := by omega
+      have hu : ¬ ((8 * tyAlign : Nat) : Int) = 0 := by omega
+      simp only [placeMember, SMem.toMem, allocate, placedAt, hw, hwz, if_false, Bool.false_eq_true]
+      rw [e1]
+      simp only [hu, if_false]
+      have e2 : ((cur : Int) + (w : Int) - 1) = ((cur + w - 1 : Nat) : Int) := by omega
+      rw [e2, tdiv_natCast, tdiv_natCast, alignTo_natCast _ _ (by omega)]
+      have hst := straddle_iff cur w (8 * tyAlign) (by omega) (by omega)
+      by_cases hfit : cur % (8 * tyAlign) + w ≤ 8 * tyAlign
+      · have hno : ¬ (cur / (8 * tyAlign) ≠ (cur + w - 1) / (8 * tyAlign)) := fun h => (hst.mp h) hfit
+        have hno' : ¬ (((cur / (8 * tyAlign) : Nat) : Int) ≠ ((cur + w - 1) / (8 * tyAlign) : Nat)) := by
+          intro h; apply hno; intro h'; apply h; rw [h']
+        rw [if_neg hno', if_pos hfit]
+        rw [tdiv_natCast8, alignDown_natCast, tmod_natCast]
+        simp only [SPlaced.toPlaced, Except.ok.injEq, Prod.mk.injEq, Placed.mk.injEq]
+        refine ⟨by omega, ?_⟩
+        simp [Nat.div_div_eq_div_mul]
+      · have hyes : (((cur / (8 * tyAlign) : Nat) : Int) ≠ ((cur + w - 1) / (8 * tyAlign) : Nat)) := by
+          intro h; exact (hst.mpr hfit) (by exact_mod_cast h)
+        rw [if_pos hyes, if_neg hfit]
+        rw [tdiv_natCast8, alignDown_natCast, tmod_natCast]
+        simp only [SPlaced.toPlaced, Except.ok.injEq, Prod.mk.injEq, Placed.mk.injEq]
+        refine ⟨by omega, ?_⟩
+        simp [Nat.div_div_eq_div_mul]
+
+theorem stepAlign_eq (packed : Bool) (al : Nat) (m : SMem) (hwf : m.WF) (hsc : MemInScope packed m) (hal : 0 < al) :
+    stepAlign packed al m.toMem = ((max al (m.contrib packed) : Nat) : Int) := by
+  obtain ⟨size, tyAlign, alignas, bw, named⟩ := m
+  obtain ⟨hta, hbf⟩ := hwf
+  unfold MemInScope at hsc
+  simp only at hta hbf hsc
+  cases bw with
+  | none =>
+    cases packed with
+    | false =>
+      simp only [stepAlign, Mem.unnamedBitfield, SMem.toMem, SMem.contrib, SMem.reqAlign, Option.isSome, Bool.false_and,
+        Bool.false_eq_true, if_false, Bool.not_false, Bool.true_and, decide_eq_true_eq]
+      generalize (if alignas ≠ 0 then alignas else tyAlign) = A
+      simp only [Nat.max_def]
+      split <;> split <;> omega
+    | true =>
+      have ⟨ha0, _⟩ := hsc rfl
+      subst ha0
+      simp only [stepAlign, Mem.unnamedBitfield, SMem.toMem, SMem.contrib, SMem.reqAlign, Option.isSome, Bool.false_and,
+        Bool.false_eq_true, if_false, Bool.not_true, if_true, ne_eq, not_true_eq_false]
+      simp only [Nat.max_def]
+      split <;> omega
+  | some w =>
+    obtain ⟨hsz, ha0, hts, hw8, hnm⟩ := hbf
+    subst ha0
+    subst hts
+    cases named <;> cases packed <;>
+      simp only [stepAlign, Mem.unnamedBitfield, SMem.toMem, SMem.contrib, Option.isSome, Bool.true_and, Bool.not_false,
+        Bool.not_true, if_true, if_false, Bool.false_eq_true, Bool.and_false, Bool.and_true, Bool.false_and, ne_eq,
+        not_true_eq_false, decide_eq_true_eq, Nat.max_def] <;>
+      (try split) <;> (try split) <;> omega
+
+theorem allocateAll_cons (p : Bool) (cur : Nat) (m : SMem) (ms : List SMem) :
+    allocateAll p cur (m :: ms) =
+      ((allocateAll p (allocate p cur m).2 ms).1,
+       placedAt m (allocate p cur m).1 :: (allocateAll p (allocate p cur m).2 ms).2) := rfl
+
+theorem aggAlign_cons (p : Bool) (a : Nat) (m : SMem) (ms : List SMem) :
+    aggAlign p a (m :: ms) = aggAlign p (max a (m.contrib p)) ms := rfl
+
+theorem structLoop_eq (packed : Bool) (ms : List SMem) : ∀ (cur al : Nat), 0 < al → (∀ m ∈ ms, m.WF) →
+    (∀ m ∈ ms, MemInScope packed m) →
+    structLoop packed cur al (ms.map SMem.toMem) =
+      .ok (((allocateAll packed cur ms).1 : Nat), ((aggAlign packed al ms : Nat) : Int),
+           (allocateAll packed cur ms).2.map SPlaced.toPlaced) := by
+  induction ms with
+  | nil => intro cur al _ _ _; rfl
+  | cons m ms ih =>
+    intro cur al hal hwf hsc
+    have hwm := hwf m (List.mem_cons_self ..)
+    have hsm := hsc m (List.mem_cons_self ..)
+    simp only [List.map_cons, structLoop, structStep, placeMember_eq packed cur m hwm hsm,
+      stepAlign_eq packed al m hwm hsm hal]
+    rw [ih (allocate packed cur m).2 (max al (m.contrib packed)) (by omega)
+      (fun x hx => hwf x (List.mem_cons_of_mem _ hx)) (fun x hx => hsc x (List.mem_cons_of_mem _ hx))]
+    rw [allocateAll_cons, aggAlign_cons]
+    rfl
+
+theorem aggAlign_ge (p : Bool) (ms : List SMem) : ∀ a, a ≤ aggAlign p a ms := by
+  induction ms with
+  | nil => intro a; exact Nat.le_refl _
+  | cons m ms ih => intro a; rw [aggAlign_cons]; exact Nat.le_trans (Nat.le_max_left ..) (ih _)
+
+theorem structLayout_eq (packed : Bool) (aligned : Option Nat) (ms : List SMem)
+    (hal : ∀ n, aligned = some n → 0 < n) (hwf : ∀ m ∈ ms, m.WF) (hsc : ∀ m ∈ ms, MemInScope packed m) :
+    structLayout packed ((aligned.getD STRUCT_INIT_ALIGN : Nat) : Int) (ms.map SMem.toMem) =
+      .ok (specStruct packed aligned ms).toLayout := by
+  have h1 : STRUCT_INIT_ALIGN = 1 := rfl
+  have ha0 : 0 < aligned.getD 1 := by
+    cases aligned with
+    | none => simp
+    | some n => simpa using hal n rfl
+  unfold structLayout
+  have := structLoop_eq packed ms 0 (aligned.getD 1) ha0 hwf hsc
+  rw [h1]
+  simp only [Int.natCast_zero] at this
+  rw [this]
+  simp only
+  have hpos : 0 < aggAlign packed (aligned.getD 1) ms := Nat.lt_of_lt_of_le ha0 (aggAlign_ge ..)
+  have e1 : ((aggAlign packed (aligned.getD 1) ms : Nat) : Int) * 8 = ((8 * aggAlign packed (aligned.getD 1) ms : Nat) : Int) := by omega
+  rw [e1, alignToE_natCast _ _ (by omega)]
+  simp only [tdiv_natCast8, specStruct, SLayout.toLayout]
+
+/-- the union member is outside the packed known-finding regions -/
+def UMemInScope (packed : Bool) (m : SMem) : Prop :=
+  packed = true → m.alignas = 0 ∧ ¬ (m.bitWidth.isSome = true ∧ m.named = true)
+
+/-- `ty->size` after one member, as `union_decl` computes it -/
+def codeExtent (m : SMem) : Nat :=
+  match m.bitWidth, m.named with
+  | some w, false => (w + 7) / 8
+  | _, _ => m.size
+
+theorem unionStep_eq (packed : Bool) (sm a : Nat) (m : SMem) (hwf : m.WF) (hsc : UMemInScope packed m) (ha : 0 < a) :
+    unionStep packed sm a m.toMem = (((max sm (codeExtent m) : Nat) : Int), ((max a (m.contrib packed) : Nat) : Int)) := by
+  obtain ⟨size, tyAlign, alignas, bw, named⟩ := m
+  obtain ⟨hta, hbf⟩ := hwf
+  unfold UMemInScope at hsc
+  simp only at hta hbf hsc
+  have e7 : ∀ w : Nat, Int.tdiv ((w : Int) + 7) 8 = (((w + 7) / 8 : Nat) : Int) := by
+    intro w
+    have : ((w : Int) + 7) = ((w + 7 : Nat) : Int) := by omega
+    rw [this, tdiv_natCast8]
+  cases bw with
+  | none =>
+    cases packed with
+    | false =>
+      simp only [unionStep, SMem.toMem, codeExtent, SMem.contrib, SMem.reqAlign, Bool.not_false, Bool.true_and,
+        decide_eq_true_eq, Bool.false_eq_true, if_false, Prod.mk.injEq]
+      generalize (if alignas ≠ 0 then alignas else tyAlign) = A
+      simp only [Nat.max_def]
+      constructor <;> split <;> split <;> omega
+    | true =>
+      have ⟨ha0, _⟩ := hsc rfl
+      subst ha0
+      simp only [unionStep, SMem.toMem, codeExtent, SMem.contrib, SMem.reqAlign, Bool.not_true, Bool.false_and,
+        Bool.false_eq_true, if_false, if_true, ne_eq, not_true_eq_false, Prod.mk.injEq, Nat.max_def]
+      constructor <;> split <;> (try split) <;> omega
+  | some w =>
+    obtain ⟨hsz, ha0, hts, hw8, hnm⟩ := hbf
+    subst ha0
+    subst hts
+    cases named with
+    | false =>
+      simp only [unionStep, SMem.toMem, codeExtent, SMem.contrib, e7, Bool.false_and, Bool.false_eq_true, if_false,
+        Prod.mk.injEq, Nat.max_def]
+      constructor <;> split <;> (try split) <;> omega
+    | true =>
+      have hp : packed = false := by
+        cases packed with
+        | false => rfl
+        | true => exact absurd ⟨rfl, rfl⟩ (hsc rfl).2
+      subst hp
+      simp only [unionStep, SMem.toMem, codeExtent, SMem.contrib, Bool.not_false, Bool.true_and, Bool.and_true,
+        decide_eq_true_eq, if_true, ne_eq, not_true_eq_false, if_false, Prod.mk.injEq, Nat.max_def]
+      constructor <;> split <;> (try split) <;> omega
+
+/-- what relates the running size of `union_decl` (`sm`) to the running extent of the spec (`ss`):
+    they are equal, or both are positive and at most the alignment (then both round up to it) -/
+def UInv (sm ss a : Nat) : Prop := ss ≤ sm ∧ (sm = ss ∨ (0 < ss ∧ sm ≤ a))
+
+theorem UInv_step (packed : Bool) (sm ss a : Nat) (m : SMem) (hwf : m.WF) (hsc : UMemInScope packed m)
+    (h : UInv sm ss a) :
+    UInv (max sm (codeExtent m)) (max ss m.extent) (max a (m.contrib packed)) := by
+  obtain ⟨size, tyAlign, alignas, bw, named⟩ := m
+  obtain ⟨hta, hbf⟩ := hwf
+  obtain ⟨h1, h2⟩ := h
+  unfold UMemInScope at hsc
+  simp only at hta hbf hsc
+  cases bw with
+  | none =>
+    simp only [UInv, codeExtent, SMem.extent, Nat.max_def]
+    constructor
+    · split <;> split <;> omega
+    · split <;> split <;> split <;> omega
+  | some w =>
+    obtain ⟨hsz, ha0, hts, hw8, hnm⟩ := hbf
+    subst ha0
+    subst hts
+    cases named with
+    | false =>
+      simp only [UInv, codeExtent, SMem.extent, Nat.max_def]
+      constructor
+      · split <;> split <;> omega
+      · split <;> split <;> split <;> omega
+    | true =>
+      have hp : packed = false := by
+        cases packed with
+        | false => rfl
+        | true => exact absurd ⟨rfl, rfl⟩ (hsc rfl).2
+      subst hp
+      have hw0 := hnm rfl
+      have hext : (w + 7) / 8 ≤ tyAlign := by omega
+      have hext0 : 0 < (w + 7) / 8 := by omega
+      simp only [UInv, codeExtent, SMem.extent, SMem.contrib, Bool.not_false, Bool.and_true, if_true, Nat.max_def]
+      generalize (w + 7) / 8 = e at hext hext0 ⊢
+      constructor
+      · split <;> split <;> omega
+      · split <;> split <;> split <;> omega
+
+
+theorem unionLoop_eq (packed : Bool) (ms : List SMem) : ∀ (sm ss a : Nat), 0 < a → (∀ m ∈ ms, m.WF) →
+    (∀ m ∈ ms, UMemInScope packed m) → UInv sm ss a →
+    ∃ sm' : Nat, unionLoop packed sm a (ms.map SMem.toMem) = ((sm' : Int), ((aggAlign packed a ms : Nat) : Int)) ∧
+      UInv sm' (ms.foldl (fun s m => max s m.extent) ss) (aggAlign packed a ms) := by
+  induction ms with
+  | nil => intro sm ss a _ _ _ h; exact ⟨sm, rfl, h⟩
+  | cons m ms ih =>
+    intro sm ss a ha hwf hsc h
+    have hwm := hwf m (List.mem_cons_self ..)
+    have hsm := hsc m (List.mem_cons_self ..)
+    simp only [List.map_cons, unionLoop, unionStep_eq packed sm a m hwm hsm ha, List.foldl_cons, aggAlign_cons]
+    exact ih _ _ _ (by omega) (fun x hx => hwf x (List.mem_cons_of_mem _ hx))
+      (fun x hx => hsc x (List.mem_cons_of_mem _ hx)) (UInv_step packed sm ss a m hwm hsm h)
+
+theorem unionLayout_eq (packed : Bool) (aligned : Option Nat) (ms : List SMem)
+    (hal : ∀ n, aligned = some n → 0 < n) (hwf : ∀ m ∈ ms, m.WF) (hsc : ∀ m ∈ ms, UMemInScope packed m) :
+    unionLayout packed ((aligned.getD STRUCT_INIT_ALIGN : Nat) : Int) (ms.map SMem.toMem) =
+      .ok (specUnion packed aligned ms).toLayout := by
+  have h1 : STRUCT_INIT_ALIGN = 1 := rfl
+  have h0 : STRUCT_INIT_SIZE = 0 := rfl
+  have ha0 : 0 < aligned.getD 1 := by
+    cases aligned with
+    | none => simp
+    | some n => simpa using hal n rfl
+  obtain ⟨sm', hloop, hle, hinv⟩ := unionLoop_eq packed ms 0 0 (aligned.getD 1) ha0 hwf hsc ⟨Nat.le_refl _, Or.inl rfl⟩
+  have hpos : 0 < aggAlign packed (aligned.getD 1) ms := Nat.lt_of_lt_of_le ha0 (aggAlign_ge ..)
+  unfold unionLayout
+  rw [h1, h0]
+  simp only [Int.natCast_zero] at hloop ⊢
+  simp only [hloop, alignToE_natCast _ _ hpos]
+  have hr : roundUp sm' (aggAlign packed (aligned.getD 1) ms) =
+      roundUp (ms.foldl (fun s m => max s m.extent) 0) (aggAlign packed (aligned.getD 1) ms) := by
+    rcases hinv with h | ⟨h2, h3⟩
+    · rw [h]
+    · rw [roundUp_small (by omega) h3, roundUp_small h2 (by omega)]
+  simp only [hr, specUnion, SLayout.toLayout, List.map_map, Except.ok.injEq, Layout.mk.injEq, true_and]
+  apply List.map_congr_left
+  intro _ _; rfl
+
+/-! ### regions ⇒ per-member scope -/
+
+theorem memInScope_of_regions {packed : Bool} {ms : List SMem}
+    (h1 : PackedWithBitfield packed ms = false) (h2 : PackedWithMemberAlign packed ms = false) :
+    ∀ m ∈ ms, MemInScope packed m := by
+  intro m hm hp
+  subst hp
+  simp only [PackedWithBitfield, PackedWithMemberAlign, Bool.true_and, List.any_eq_false] at h1 h2
+  have a1 := h1 m hm
+  have a2 := h2 m hm
+  refine ⟨by simpa using a2, ?_⟩
+  cases hb : m.bitWidth with
+  | none => exact Or.inl rfl
+  | some w =>
+    rw [hb] at a1
+    right
+    have : w = 0 := by simpa using a1
+    rw [this]
+
+theorem uMemInScope_of_regions {packed : Bool} {ms : List SMem}
+    (h1 : PackedUnionBitfield packed ms = false) (h2 : PackedWithMemberAlign packed ms = false) :
+    ∀ m ∈ ms, UMemInScope packed m := by
+  intro m hm hp
+  subst hp
+  simp only [PackedUnionBitfield, PackedWithMemberAlign, Bool.true_and, List.any_eq_false] at h1 h2
+  have a1 := h1 m hm
+  have a2 := h2 m hm
+  refine ⟨by simpa using a2, ?_⟩
+  rintro ⟨hb, hn⟩
+  simp [hb, hn] at a1
 
 end ChibiVerif.Layout
